@@ -98,17 +98,25 @@ class CheckComparisons(MultiFunction):
         self.nodetype[o] = "complex"
         return o
 
+    # Real arguments outside the real domain of these functions give complex
+    # values, just as for sqrt
+    ln = sqrt
+    acos = sqrt
+    asin = sqrt
+    bessel_y = sqrt
+    bessel_k = sqrt
+
     def power(self, o, base, exponent):
         """Apply to power."""
         o = self.reuse_if_untouched(o, base, exponent)
-        try:
-            # Attempt to diagnose circumstances in which the result must be real.
+        # Attempt to diagnose circumstances in which the result must be real:
+        # a real base to a literal integer exponent. (Only literals are
+        # converted: float() of a symbolic exponent cannot succeed.)
+        if isinstance(exponent, RealValue | Zero) and self.nodetype[base] == "real":
             exponent = float(exponent)
-            if self.nodetype[base] == "real" and int(exponent) == exponent:
+            if int(exponent) == exponent:
                 self.nodetype[o] = "real"
                 return o
-        except TypeError:
-            pass
 
         self.nodetype[o] = "complex"
         return o
